@@ -700,6 +700,9 @@ def main(argv=None):
             print(f"VIOLATION-DETAIL: property={args.prop} key={v['key']} {v['message']}")
             print(f"VIOLATION property={args.prop} replay={path}")
         return 1
+    if harness_errors:
+        print(f"INCONCLUSIVE property={args.prop}: {len(harness_errors)} shard(s) ended with a harness error")
+        return 2
     if n_deciding < min_events or dead == nshards:
         print(f"INCONCLUSIVE property={args.prop}: deciding monitors observed {n_deciding} events (< {min_events})")
         return 2
